@@ -1,3 +1,4 @@
+import Cutadapt.Generated.Actions
 import Cutadapt.Proofs.ModsPairedPipe
 import Cutadapt.Proofs.ModsAssembly
 import Cutadapt.Proofs.ModsBounds
@@ -610,5 +611,38 @@ example :
      | .ok (r, i, _) => (r.name, r.seq, r.qual, i.isRc) ==
          ([114, 32, 114, 99], [84,84,84,84,67,67,67,67], some [44,44,44,44,44,45,46,47], some true)
      | .error _ => false) = true := by decide +kernel
+
+/-! ## What every `--action` of the real program does (regenerated from the working tree on every run) -/
+
+def upperByte (c : UInt8) : UInt8 := if 97 ≤ c ∧ c ≤ 122 then c - 32 else c
+def lowerByte (c : UInt8) : UInt8 := if 65 ≤ c ∧ c ≤ 90 then c + 32 else c
+
+/-- **documented**: with a 3' adapter found at `[s, e)` the part from `s` on "would be removed", with a 5' adapter the part up to `e`.
+    `trim` removes it; `retain` removes it but keeps the adapter; `crop` keeps only the adapter; `mask` writes `N` over it; `lowercase`
+    lower-cases it and upper-cases the rest; `none` changes nothing. Qualities are sliced like the sequence and otherwise untouched. -/
+def docAction (front : Bool) (action : String) (seq qual : List UInt8) (s e : Nat) : List UInt8 × List UInt8 :=
+  let cut := fun (l : List UInt8) (a b : Nat) => (l.drop a).take (b - a)
+  let n := seq.length
+  match action, front with
+  | "trim", false => (cut seq 0 s, cut qual 0 s)
+  | "trim", true => (cut seq e n, cut qual e n)
+  | "retain", false => (cut seq 0 e, cut qual 0 e)
+  | "retain", true => (cut seq s n, cut qual s n)
+  | "crop", _ => (cut seq s e, cut qual s e)
+  | "mask", false => (cut seq 0 s ++ List.replicate (n - s) 78, qual)
+  | "mask", true => (List.replicate e 78 ++ cut seq e n, qual)
+  | "lowercase", false => ((cut seq 0 s).map upperByte ++ (cut seq s n).map lowerByte, qual)
+  | "lowercase", true => ((cut seq 0 e).map lowerByte ++ (cut seq e n).map upperByte, qual)
+  | _, _ => (seq, qual)
+
+/-- **Every `--action` of the real program has the documented effect on the interval of the occurrence** — sequence and qualities, for a 3'
+    and a 5' adapter, inside the read and at its end (probe reads with one exact occurrence through the command-line program;
+    `trim_result`, `nontrim_actions_once` and the slice theorems above state the same of the model for all reads). -/
+theorem generated_actions_documented :
+    ∀ row ∈ Generated.actionRows,
+      (match Generated.actionProbes[row.1]? with
+       | some p => row.2.2.1 == 1 && (row.2.2.2.1, row.2.2.2.2) == docAction p.1 row.2.1 p.2.1 p.2.2.1 p.2.2.2.1 p.2.2.2.2
+       | none => false) = true := by
+  decide
 
 end Cutadapt.C03
